@@ -1,8 +1,9 @@
 (* C16 — Semantic action references bind to the right symbols.
    Model: Gram/ActionRefs.v (convertPart/pushName positions and names, expandExpr, compiler traverse with
-   mid-rule extraction, ActionVars.resolve, goParserAction slot arithmetic). *)
+   mid-rule extraction, ActionVars.resolve, goParserAction: left()/first()/last() and the slot arithmetic).
+   Proofs: Gram/ActionRefs_proofs.v, Gram/ActionNames_proofs.v (the Names table). *)
 From Coq Require Import List NArith ZArith Bool Arith.
-From TM Require Import Gram.ActionRefs Gram.ActionRefs_proofs.
+From TM Require Import Gram.ActionRefs Gram.ActionRefs_proofs Gram.ActionNames_proofs.
 Import ListNotations.
 Local Open Scope nat_scope.
 
@@ -32,7 +33,8 @@ Proof. exact eval_num_binds. Qed.
 (* ref_binds, named: with [ps] the positions the name stands for in the original rule, ${name.offset} is the
    start of the first of them present in the expansion, ${name.endoffset} the end of the last one present,
    $name the value of the only one present; nil / -1 when none is present. (When several are present $name
-   is a generation error -- AErr 3 -- the statement leaves that case as it is.) *)
+   is a generation error -- AErr 3 -- the statement leaves that case as it is.) The hypothesis about the table
+   is discharged for the tables convert builds by C16_names_table_sound / C16_named_ref_denotes_occurrence. *)
 Theorem C16_ref_binds_named : forall ca rm st b base lhs nm ps pr,
   agree st rm b -> nm_get (ca_names ca) nm = Some ps -> ps <> [] ->
   eval_ref ca rm (length st) (base ++ st) lhs (RName nm) pr =
@@ -81,9 +83,128 @@ Proof. exact expansion_positions_distinct. Qed.
 Theorem C16_pick_is_an_expansion : forall p sel, In (fst (pick p sel)) (expand p).
 Proof. exact pick_in_expand. Qed.
 
-(* NOT proved (partial): that the Names table built by pushName maps an alias exactly to the positions below
-   the aliased sub-expression and a symbol name (with its #k suffix) to its k-th occurrence; this part of the
-   model is checked by the correspondence and judged by the oracle only. *)
+(* ---------- the Names table (pushName / convertPart / popRule) ----------
+   [pushes p'] lists the names convert pushes for the converted body p', in the order it pushes them (textual
+   order; an alias right after its content, with [collect] of the content = the positions pushName receives);
+   [occs nm l] are the position lists pushed under the base name nm: occurrence 0, 1, 2, ...;
+   [key_index]: the key  name  and  name#0  stand for occurrence 0,  name#k  for occurrence k. *)
+
+(* names_table: in the Names table of EVERY command of EVERY rule body (top level, parenthesised alternatives at
+   any depth, after popRule merges), a key name / name#k is bound to the positions of the k-th push of that
+   name -- for a symbol its own position, for an alias the positions collected beneath it; the list is not
+   empty and lies inside [1, MaxPos) of that command (allocated before the command). This is the hypothesis
+   of C16_ref_binds_named, now a theorem about the model of convertPart / pushName. *)
+Theorem C16_names_table_sound : forall p c ca nm k ps,
+  In (c, ca) (c_cmds (snd (convert_rule p))) ->
+  nm_get (ca_names ca) (nm, k) = Some ps ->
+  ps <> [] /\ Forall (fun q => 1 <= q < ca_maxpos ca) ps /\
+  nth_error (occs nm (pushes (fst (convert_rule p)))) (key_index k) = Some ps.
+Proof. exact names_table_sound. Qed.
+
+(* "the positions beneath it": what an alias is pushed with ([collect] of the converted content) is exactly
+   the set of positions that occur in some expansion of that content. *)
+Theorem C16_alias_covers_exactly_its_symbols : forall p s pos, 1 <= c_pos s ->
+  (In pos (collect (fst (convert p s))) <->
+   exists x, In x (expand (fst (convert p s))) /\ In pos (positions x)).
+Proof. exact alias_covers_exactly_its_symbols. Qed.
+
+(* completeness at the top level: after the whole body the table of the rule is EXACTLY
+   { name -> its push } for names pushed once and { name#k -> k-th push, k = 0..n-1 } for names pushed n >= 2
+   times ([top_spec]); the loop "index++ until name#index is free" always stops at n. *)
+Theorem C16_top_table_exact : forall p nm k,
+  nm_get (c_top (snd (convert_rule p))) (nm, k) = top_spec (occs nm (pushes (fst (convert_rule p)))) k.
+Proof. exact top_table_exact. Qed.
+
+(* ... and that is the table a final action "body { code }" is given, with MaxPos = the next free position *)
+Theorem C16_final_action_table_exact : forall p c,
+  let r := convert_rule (PSeq p (PCmd c)) in
+  exists ca, In (c, ca) (c_cmds (snd r)) /\
+    ca_maxpos ca = c_pos (snd r) /\
+    forall nm k, nm_get (ca_names ca) (nm, k) = top_spec (occs nm (pushes (fst r))) k.
+Proof. exact final_action_table_exact. Qed.
+
+(* C16_ref_binds_named with its hypothesis discharged: for every rule body, every command of it and every key
+   its table binds, the key denotes the k-th push of the name and the reference evaluates to the start of the
+   first / end of the last / value of the only present symbol among exactly those positions. *)
+Theorem C16_named_ref_denotes_occurrence : forall p c ca nm k ps rm st b base lhs pr,
+  In (c, ca) (c_cmds (snd (convert_rule p))) ->
+  nm_get (ca_names ca) (nm, k) = Some ps ->
+  agree st rm b ->
+  nth_error (occs nm (pushes (fst (convert_rule p)))) (key_index k) = Some ps /\
+  eval_ref ca rm (length st) (base ++ st) lhs (RName (nm, k)) pr =
+    match filter (present b) ps with
+    | [] => absent_arg pr
+    | a0 :: rest =>
+        match b_get b a0, b_get b (last (a0 :: rest) a0) with
+        | Some e0, Some e1 =>
+            match pr with
+            | POffset => AInt (e_off e0)
+            | PEndoffset => AInt (e_end e1)
+            | PValue => match rest with
+                        | [] => val_arg (e_val e0)
+                        | _ => eval_ref ca rm (length st) (base ++ st) lhs (RName (nm, k)) PValue
+                        end
+            end
+        | _, _ => AErr 4
+        end
+    end.
+Proof. exact named_ref_denotes_occurrence. Qed.
+
+(* Not stated for nested alternatives: completeness (which pushes a parenthesised alternative's table contains).
+   It holds only up to renaming -- after  ( ta ( ta {c1} ) {c2} )  the outer alternative still has the stale key
+   ta next to ta#0 and ta#1 (both bound to the first ta, which is what soundness says) -- so only soundness
+   is a theorem there; the tables themselves are compared with the compiler's (c16.table). *)
+
+(* ta ta[x] (ta tb)[y] { .. } : ta is pushed three times, x covers the second ta, y the group *)
+Example C16_names_example :
+  let body := PSeq (PSym 1 1 0) (PSeq (PAlias 1000 (PSym 1 1 0))
+              (PSeq (PAlias 1001 (PScope (PSeq (PSym 1 1 0) (PSym 2 2 0)))) (PCmd 7))) in
+  let r := convert_rule body in
+  exists ca, In (7%N, ca) (c_cmds (snd r)) /\ ca_maxpos ca = 5 /\
+    nm_get (ca_names ca) (1%N, Some 2%N) = Some [3] /\
+    nm_get (ca_names ca) (1%N, None) = None /\
+    nm_get (ca_names ca) (1000%N, None) = Some [2] /\
+    nm_get (ca_names ca) (1001%N, None) = Some [3; 4] /\
+    occs 1%N (pushes (fst r)) = [[1]; [2]; [3]] /\
+    occs 1001%N (pushes (fst r)) = [[3; 4]].
+Proof.
+  cbv zeta. eexists. split; [vm_compute; left; reflexivity|]. vm_compute. repeat split; reflexivity.
+Qed.
+
+(* ---------- ${first()} / ${last()} (gen/funcs.go goParserAction) ----------
+   At every site the model reaches (the state after the items l1 of the expansion): ${first()..} reads the FIRST
+   entry the rule has pushed and ${last()..} the LAST one pushed before the action -- value / start / end of
+   that entry -- when it belongs to a symbol carrying a position ([entry_tags]: true for such symbols, false for
+   an extracted mid-rule nonterminal and for the recursive reference of a list rule); for an entry without a
+   position the generator stops with "internal error: cannot find the position for index" (AErr 7); when
+   the rule has pushed nothing both are nil / -1. So first()/last() denote the first / last symbol of the
+   EXPANDED rule up to the action, not a position of the original rule. *)
+Theorem C16_first_last_bind : forall ca l1 ch start st rm b ch' cur base lhs pr,
+  state_after l1 [] [] [] ch start = Some (st, rm, b, ch', cur) ->
+  eval_ref ca rm (length st) (base ++ st) lhs RFirst pr =
+    match st with
+    | [] => absent_arg pr
+    | e0 :: _ => if hd false (entry_tags l1) then entry_arg e0 pr else AErr 7
+    end /\
+  eval_ref ca rm (length st) (base ++ st) lhs RLast pr =
+    match rev st with
+    | [] => absent_arg pr
+    | e1 :: _ => if hd false (rev (entry_tags l1)) then entry_arg e1 pr else AErr 7
+    end.
+Proof. exact first_last_bind. Qed.
+
+(* ta? tb { first().offset, last() } tc { first(), last().endoffset } without ta;
+   { first().offset } ta { first().offset, last().offset } : the first entry is the mid-rule nonterminal *)
+Example C16_first_last_example :
+  let body := PSeq (POpt (PSym 1 1 0)) (PSeq (PSym 2 2 0) (PSeq (PCmd 5) (PSeq (PSym 3 3 0) (PCmd 7)))) in
+  let tab := [(5%N, [(RFirst, POffset); (RLast, PValue)]); (7%N, [(RFirst, PValue); (RLast, PEndoffset)])] in
+  let body2 := PSeq (PCmd 5) (PSeq (PSym 1 1 0) (PCmd 7)) in
+  let tab2 := [(5%N, [(RFirst, POffset)]); (7%N, [(RFirst, POffset); (RLast, POffset)])] in
+  run_node tab body false [false] [mkE (V 99) 0 1] [mkE (V 5) 3 4; mkE (V 6) 4 5] 3%Z
+    = [(5%N, [AInt 3%Z; AVal 5]); (7%N, [AVal 5; AInt 5%Z])] /\
+  run_node tab2 body2 false [] [] [mkE (V 4) 0 1] 0%Z
+    = [(5%N, [AM1]); (7%N, [AErr 7; AInt 0%Z])].
+Proof. cbv zeta. split; vm_compute; reflexivity. Qed.
 
 (* ta[x]? tb { $$ = f($x, $1, ${x.offset}) } : the expansion without ta *)
 Example C16_example :
@@ -106,3 +227,9 @@ Print Assumptions C16_ref_binds_named.
 Print Assumptions C16_sites_run_in_agreeing_states.
 Print Assumptions C16_positions_identify_symbols.
 Print Assumptions C16_pick_is_an_expansion.
+Print Assumptions C16_names_table_sound.
+Print Assumptions C16_alias_covers_exactly_its_symbols.
+Print Assumptions C16_top_table_exact.
+Print Assumptions C16_final_action_table_exact.
+Print Assumptions C16_named_ref_denotes_occurrence.
+Print Assumptions C16_first_last_bind.
